@@ -1376,6 +1376,8 @@ func (m *Model) RunProgPathPairs(s *Sink, rule string) {
 		}
 	}
 	if nSites < 1 {
-		s.Undecided(rule, "program/path pairs", "-", "no call was found that hands a freshly parsed program and a path to a function that reports errors with them (parsePrograms -> applyComponentToProgram was the confirmed instance)")
+		// a mismatch detector: where no call has this shape (the pair travels in a struct, the parse sits in a helper)
+		// there is nothing to mismatch; the count is in the evidence
+		s.Note(rule, "program/path pairs", "-", "no call hands a program parsed on the spot, together with a path, to a function that reports errors with them (on the pinned tree parsePrograms -> applyComponentToProgram is the instance)")
 	}
 }
